@@ -10,7 +10,7 @@
    Where a statement needs the digest to be collision-free this is an explicit
    premise of that clause. *)
 From Coq Require Import Sorting.Permutation.
-From Oras Require Import Base.Prelude Base.Regex Base.StrCheck Generated.GC19 Model.Pack Proofs.Pack Proofs.PackTime.
+From Oras Require Import Base.Prelude Base.Regex Base.StrCheck Generated.GC19 Model.Pack Proofs.Pack Proofs.PackTime Proofs.PackJson.
 
 (* The media-type check accepts exactly RFC 6838 section 4.2:
    restricted-name "/" restricted-name, each 1..127 characters. *)
@@ -134,6 +134,64 @@ Theorem C19_consistent :
       Forall (fun x => stored (t_key tc) (s_store s') x = true) (invented H f at_ o).
 Proof. exact ok_consistent. Qed.
 Print Assumptions C19_consistent.
+
+(* What can be read back.  json_roundtrip is the named premise about encoding/json: decoding the
+   marshalled document gives it back with every string coerced to valid UTF-8 (utf8_san, executable,
+   compared with encoding/json on every run).  The bytes stored under the returned descriptor decode
+   to san_manifest of the requested manifest -- to the requested manifest itself exactly when its
+   strings are valid UTF-8 (clean_manifest). *)
+Theorem C19_stored_parses :
+  forall (marshal : manifest -> str) (H : str -> str) (unmarshal : str -> option manifest),
+    H empty_json = empty_json_digest -> (forall x y, H x = H y -> x = y) ->
+    (forall m, unmarshal (marshal m) = Some (san_manifest m)) ->
+  forall f tc fa s at_ o now s' d m,
+    wf_store H (s_store s) ->
+    pack marshal H f tc fa s at_ o now = (s', Ok d m) ->
+    exists e, In e (s_store s') /\ same_key (t_key tc) d e = true /\
+              unmarshal (e_bytes e) = Some (san_manifest m) /\
+              (clean_manifest m -> unmarshal (e_bytes e) = Some m).
+Proof. exact stored_parses. Qed.
+Print Assumptions C19_stored_parses.
+
+(* the media types PackManifest validated survive json.Marshal unchanged (they are ASCII) *)
+Theorem C19_packmanifest_media_types_clean :
+  forall (marshal : manifest -> str) (H : str -> str), H empty_json = empty_json_digest ->
+  forall f tc fa s at_ o now s' d m,
+    f = FV10 \/ f = FV11 ->
+    pack marshal H f tc fa s at_ o now = (s', Ok d m) ->
+    utf8_clean (m_at m) /\ forall c, m_config m = Some c -> utf8_clean (d_mt c).
+Proof. exact pack_manifest_media_types_clean. Qed.
+Print Assumptions C19_packmanifest_media_types_clean.
+
+(* Known finding non-utf8-lossy: with a string that is not valid UTF-8 the clauses "exactly the
+   requested ones" and "can be copied" fail.  Witness: Pack (rc2) with config media type a\xff/b on
+   a memory target succeeds, the pushed config blob is keyed by the raw media type, the config
+   descriptor of the manifest that is read back is not in the target. *)
+Theorem C19_lossy_json_refuted :
+  exists at_ o s' d m c,
+    pack lossy_marshal lossy_H FRC2 (mkTcfg true KFull) None (init_state []) at_ o [50] = (s', Ok d m) /\
+    m_config (san_manifest m) = Some c /\
+    stored KFull (s_store s') c = false /\
+    (exists c0, m_config m = Some c0 /\ stored KFull (s_store s') c0 = true).
+Proof. exact lossy_json_refuted. Qed.
+Print Assumptions C19_lossy_json_refuted.
+
+(* Deviation from the property text: the rejection clauses hold for PackManifest only.  Pack
+   (deprecated) validates nothing -- C19_reject_before_push is vacuous for it -- and succeeds with a
+   media type that violates RFC 6838. *)
+Theorem C19_pack_rejects_nothing_deviation :
+  forall at_ o, must_reject FRC2 at_ o = false /\ must_reject FArtifact at_ o = false.
+Proof. exact pack_rejects_nothing. Qed.
+Print Assumptions C19_pack_rejects_nothing_deviation.
+
+Theorem C19_pack_accepts_invalid_media_type_deviation :
+  exists at_ o s' d m c,
+    ~ RFC6838 at_ /\
+    pack lossy_marshal lossy_H FRC2 (mkTcfg true KFull) None (init_state []) at_ o [50] = (s', Ok d m) /\
+    m_config m = Some c /\ d_mt c = at_ /\ d_at d = at_ /\
+    In (EvPush RBlob c empty_json) (s_events s').
+Proof. exact pack_accepts_invalid_media_type. Qed.
+Print Assumptions C19_pack_accepts_invalid_media_type_deviation.
 
 (* The created annotation of the result exists and parses (the caller's value, or the clock's
    when the caller gave none); all other annotations are the caller's; the descriptor carries
